@@ -1,8 +1,10 @@
 import ZCV.SExp
 import ZCV.Model.Subst
 import ZCV.Spec.Subst
+import ZCV.Codec
+import ZCV.Model.Conv
 /-! Line-protocol driver: one request per line, one answer per line. Imports Spec + Model + Gen only. -/
-open ZCV ZCV.SExp
+open ZCV ZCV.SExp ZCV.Codec ZCV.Cfg
 
 def assocFn (kvs : List SExp) : Str → Option Str := fun k =>
   kvs.findSome? fun
@@ -35,6 +37,23 @@ def handle (st : DState) : SExp → DState × SExp
            exc specErr (SubstSpec.substituteSpec (assocFn defs) (assocFn env) s)])
   | .list [.atom "isname", .str s] =>
     (st, .list [ofBool (Subst.isname s), ofBool (SubstSpec.isnameSpec s)])
+  -- (load schema pkgs resources resolve env topurl (lines…) overrides)
+  | .list [.atom "load", sch, .list pkgs, .list res, .list rsv, .list env, url, .list lines, .list ovs] =>
+    (st, match decSchema sch, decPkgs pkgs, decResources res, decResolve rsv, lines.mapM getStr?, decOverrides ovs with
+      | some sc, some pk, some rs, some rv, some ls, some ov =>
+        let e : Env := { res := rs, resolve := rv, getenv := decEnv env }
+        match load stockConv e pk sc (optStr url) ls ov with
+        | .ok r => .list [.atom "ok", encVal r.value,
+                          .list (r.handlers.map fun (h, v) => .list [.str h, encVal v]), encAbstract r.schemaAfter]
+        | .error f => encFail f
+      | _, _, _, _, _, _ => .list [.atom "bad-request", .atom "load"])
+  -- (conv "datatype" "text") → (ok val) | (err kind)
+  | .list [.atom "conv", .str dt, .str s] =>
+    (st, match stockVal dt s with
+      | .ok v => .list [.atom "ok", encVal v]
+      | .error .valueError => .list [.atom "err", .atom "ValueError"]
+      | .error .typeError => .list [.atom "err", .atom "TypeError"]
+      | .error (.other n) => .list [.atom "err", .str n])
   | .list [.atom "ping"] => (st, .atom "pong")
   | _ => (st, .list [.atom "bad-request"])
 
